@@ -105,3 +105,22 @@ Proof.
     destruct (loop_op k al ov wd fc l s) as [[[a|e] s']| |]; try contradiction; exists (Val a) || exists (Raise e); exists s'; (split; [reflexivity|apply Hc]).
 Qed.
 
+
+(* a ring length whose byte size does not fit is refused before any op runs: the run raises (MemoryError from the
+   refused calloc, or an earlier ValueError/OverflowError) - for every allocator *)
+Lemma C11_huge_ring_refused_proof : forall ev al ov wd lol ip n s, wf s -> (1152921504606846976 <= lol)%Z ->
+  exists e s', api_run ev al ov wd lol ip n s = Ok (Raise e, s').
+Proof.
+  intros ev al ov wd lol ip n s H Hlol.
+  assert (Hp : post (api_run ev al ov wd lol ip n s) (fun _ _ => False) (fun _ => True)).
+  { unfold api_run.
+    destruct ((lol <? -9223372036854775808)%Z || (9223372036854775807 <? lol)%Z); [exact Logic.I|].
+    destruct (Z.ltb_spec lol 0); [lia|]. set (len := Z.to_N lol). assert (Hlen : 1152921504606846976 <= len) by (unfold len; lia).
+    eapply post_bind_w; [apply (mem_decide_storage_ok ev al s 0 (m_cfg s) (I'_wf s H))|auto|].
+    intros [] s1 _. rewrite bind_modify, bind_gets, bind_modify.
+    destruct (N.eqb_spec len 0); [lia|]. rewrite !andb_false_r. cbn [negb andb].
+    destruct (N.ltb_spec 0 len); [|lia].
+    unfold bind at 1. unfold bind at 1. unfold bind at 1. unfold try_alloc.
+    destruct (N.leb_spec (len * 8) PTRDIFF_MAX); [lia|]. cbn. exact Logic.I. }
+  unfold post in Hp. destruct (api_run ev al ov wd lol ip n s) as [[[a|e] s']| |]; try contradiction. eauto.
+Qed.
